@@ -108,17 +108,68 @@ def family(name, tier):
         yield from depth3(tier)
 
 
+ALIAS_POOL = [
+    ["union", [["bool"], ["uint", 8, "s"]]], ["union", [["uint", 8, "s"], ["bool"]]], ["union", [["bool"], ["uint", 8, "s"], ["int", 16]]], ["union", [["int", 16], ["bool"], ["uint", 8, "s"]]],
+    ["union", [["varr", ["uint", 8, "s"], 2], ["bool"]]], ["union", [["bool"], ["varr", ["uint", 8, "s"], 2]]],
+    ["struct", [["bool"], ["uint", 8, "s"]]], ["struct", [["uint", 8, "s"], ["bool"]]], ["struct", [["uint", 8, "s"]]], ["struct", [["int", 16], ["bool"], ["uint", 3, "s"]]], ["struct", [["uint", 3, "s"], ["int", 16], ["bool"]]],
+    ["struct", [["varr", ["bool"], 3], ["uint", 8, "s"]]], ["struct", [["uint", 8, "s"], ["varr", ["bool"], 3]]],
+    ["delim", ["struct", [["uint", 8, "s"]]], 16], ["delim", ["struct", [["uint", 8, "s"], ["bool"]]], 16], ["delim", ["struct", [["uint", 8, "s"]]], 64], ["delim", ["union", [["bool"], ["uint", 8, "s"]]], 16],
+    ["struct", [["union", [["bool"], ["uint", 8, "s"]]], ["bool"]]], ["struct", [["union", [["uint", 8, "s"], ["bool"]]], ["bool"]]],
+]
+
+
 def plan(tier):
     fams = [("scalars", 8), ("depth1s", 24), ("depth1u", 16), ("depth2", 32)]
     if tier != "quick":
         fams.append(("depth3", 32))
-    return [{"family": n, "part": p, "parts": k} for n, k in fams for p in range(k)]
+    shards = [{"family": n, "part": p, "parts": k} for n, k in fams for p in range(k)]
+    shards += [{"family": "aliases", "part": p, "parts": 8} for p in range(8)]
+    return shards
 
 
 def cases(shard, tier):
+    if shard["family"] == "aliases":
+        # operation histories on DISTINCT types that share one full name (same or different version): process-wide state
+        # keyed by a type's name instead of the type would make the outcome depend on what was serialized before
+        i = 0
+        for a, b in itertools.product(range(len(ALIAS_POOL)), repeat=2):
+            if a == b:
+                continue
+            for same_version in (True, False):
+                if i % shard["parts"] == shard["part"]:
+                    yield {"alias": [a, b], "same_version": same_version}
+                i += 1
+        return
     for i, d in enumerate(family(shard["family"], tier)):
         if i % shard["parts"] == shard["part"]:
             yield {"desc": d, "cap": 32 if tier == "quick" else 64}
+
+
+def check_alias(case, R: engine.Acc):
+    a, b = (ALIAS_POOL[i] for i in case["alias"])
+    ta = T.build_named(a, "Alias", (1, 0))
+    tb = T.build_named(b, "Alias", (1, 0) if case["same_version"] else (1, 1))
+    for step, (desc, t) in enumerate([(a, ta), (b, tb), (a, ta), (b, tb)]):
+        for vi, v in enumerate(V.values(desc, cap=12)):
+            try:
+                want = C.encode(desc, v)
+                cv = C.canon(desc, v)
+            except C.BadValue:
+                continue
+            one = {**case, "step": step, "value": repr(v)}
+            R.case([case["alias"], case["same_version"], step, repr(v)], nontrivial=True, sample=(step == 1 and vi == 1 and len(R.samples) < 2))
+            R.counters["alias_operations"] += 1
+            try:
+                got = pydsdl.serialize(t, v)
+                back = pydsdl.deserialize(t, got)
+            except Exception as ex:  # noqa
+                R.violation("history-dependent-codec:raised:" + type(ex).__name__, "serialize/deserialize of a type do not depend on other types that share its name", one, observed=repr(ex)[:200], expected=want.hex())
+                return
+            if got != want or not C.same(back, cv):
+                R.outcome("alias-mismatch")
+                R.violation("history-dependent-codec:" + desc[0], "serialize/deserialize of a type do not depend on other types that share its name", one, observed={"bytes": got.hex(), "back": repr(back)[:200]}, expected={"bytes": want.hex(), "value": repr(cv)[:200]})
+                return
+    R.outcome("alias-ok")
 
 
 def has_subbyte(desc) -> bool:
@@ -151,6 +202,8 @@ _cache: dict = {}
 
 
 def check_case(case, R: engine.Acc):
+    if "alias" in case:
+        return check_alias(case, R)
     desc = case["desc"]
     only = case.get("value_index")
     t = T.build(desc)
